@@ -15,7 +15,7 @@
    from the LOGGED world, so one deviation is reported once.                                                     *)
 EXTENDS Integers, Sequences, FiniteSets, TLC, Json, IOUtils
 
-CONSTANTS Types, EdgeTypes, Cells, BlockCells, CacheModel, LogExtra, CitShared, LogPurge
+CONSTANTS Types, EdgeTypes, Cells, BlockCells, BlockRank, SysFF, CacheModel, LogExtra, CitShared, LogPurge
 
 Batch == JsonDeserialize(IOEnv.TRACE_FILE)
 
@@ -23,7 +23,7 @@ VARIABLES tid, l, W, why, seen
 tvars == <<tid, l, W, why, seen>>
 
 ME == INSTANCE MoleculeEdit WITH Id <- Cells, BlockIds <- BlockCells, InitHeaps <- {}, InitSys <- {}, Key <- {}, BKey <- {},
-        BAtomSeqs <- {}, BRank <- [a |-> 1, b |-> 2, c |-> 3, d |-> 4, e |-> 5, f |-> 6],
+        BAtomSeqs <- {}, BRank <- BlockRank,
         AttrChoice <- <<>>, AtomSeqs <- {}, NodeSets <- {}, ChainSets <- {}, Offsets <- {},
         MaxNodes <- 0, MaxInter <- 0, MaxResid <- 0, MaxDepth <- 0, Acts <- {}, OneShotPurges <- TRUE,
         mols <- W.mols, sys <- W.sys, parts <- W.parts, err <- why, obs <- {}, last <- "-", steps <- l
@@ -84,6 +84,8 @@ Consume ==
          g == LoggedWorld(e)
      IN IF \E c \in Cells : PostOf(e, c).extra
         THEN why' = "interaction type outside the model" /\ UNCHANGED <<l, W, seen>>
+        ELSE IF \E c \in Cells : LET M == g.mols[c] IN Cardinality(ME!KeysOf(M)) # Len(M.nodes)
+        THEN why' = "two atoms with one key on the real object" /\ UNCHANGED <<l, W, seen>>
         ELSE IF \E c \in Cells : ~ ME!NoDanglingMol(g.mols[c])
         THEN why' = "NoDangling fails on the real object in cell " \o ToString(CHOOSE c \in Cells : ~ ME!NoDanglingMol(g.mols[c]))
              /\ UNCHANGED <<l, W, seen>>
@@ -95,6 +97,8 @@ Consume ==
              /\ UNCHANGED <<l, W, seen>>
         ELSE IF r.sys # g.sys
         THEN why' = "molecule list of the system differs from the model" /\ UNCHANGED <<l, W, seen>>
+        ELSE IF e.ev = "Merge" /\ e.err = "none" /\ ~ ME!Conserved(W.mols[e.m], W.mols[e.n], g.mols[e.m])
+        THEN why' = "the merge does not conserve (declarative form)" /\ UNCHANGED <<l, W, seen>>
         ELSE /\ W' = g
              /\ l' = l + 1
              /\ seen' = seen \o Notes(l, r.obs, r, g)
@@ -102,6 +106,4 @@ Consume ==
   /\ UNCHANGED tid
 
 TraceSpec == TInit /\ [][Consume]_tvars
-
-TraceUniqueKeys == ME!UniqueKeys
 =============================================================================
